@@ -36,6 +36,9 @@ PS_UNIQ, PS_MEMO, PS_TPLCACHE, PS_MODELCACHE = "psUniqueName", "psMemo", "psTemp
 PS_FOLD, PS_SHARED = "psCompileFold", "psSharedMutable"
 ALL_SRC = [TIME, ABSPATH, PLATFORM, HASHORDER, RANDOM, SIBLINGS, PS_UNIQ, PS_MEMO, PS_TPLCACHE, PS_MODELCACHE, PS_FOLD, PS_SHARED]
 MUTATORS = {"append", "extend", "insert", "remove", "pop", "clear", "update", "add", "discard", "setdefault", "sort", "reverse", "popitem"}
+# ... of buffers, streams, iterators, queues (reading moves a position: that is state as well)
+IO_MUTATORS = {"write", "writelines", "truncate", "seek", "read", "readline", "readlines", "flush", "close", "send", "put", "put_nowait",
+               "get_nowait", "appendleft", "popleft", "rotate", "acquire", "release", "__next__", "subtract", "move_to_end"}
 
 
 class TieBroken(Exception):
@@ -97,6 +100,7 @@ JINJA_FILTERS = {
     "tojson": (set(), set()), "unique": (set(), set()), "groupby": (set(), set()), "wordcount": (set(), set()),
     "items": (set(), set()), "xmlattr": (set(), set()), "urlencode": (set(), set()), "filesizeformat": (set(), set()),
     "forceescape": (set(), set()), "urlize": (set(), set()), "pprint": (set(), set()),
+    "lineprefix": (set(), set()),        # nunavut's addition to the bundled Jinja: prefixes every line of a string (found by the sweep)
     "sort": (set(), {HASHORDER}), "dictsort": (set(), {HASHORDER}),
     "random": ({RANDOM}, set()), "shuffle": ({RANDOM}, set()),
 }
@@ -490,6 +494,19 @@ def source_facts(repo_src: pathlib.Path):
     # 9. file post-processors: the code Model/FilePP.lean transcribes
     facts.update(file_pp_facts(repo_src))
 
+    # 11. the line buffer of _generate_with_line_buffer is created by the call that uses it (a fresh io.StringIO() at entry and after
+    #     every complete line): nothing of an earlier — possibly aborted — rendering can be in it
+    fn = find_def("nunavut/jinja/__init__.py", "_generate_with_line_buffer", "CodeGenerator")
+    binds = [n for n in ast.walk(fn) if isinstance(n, ast.Assign) and any(isinstance(t, ast.Name) and t.id == "line_buffer" for t in n.targets)]
+    fresh = [n for n in binds if isinstance(n.value, ast.Call) and (Scanner._dotted(n.value.func) or "") in ("io.StringIO", "StringIO") and not n.value.args]
+    first_use = min([n.lineno for n in ast.walk(fn) if isinstance(n, ast.Name) and n.id == "line_buffer" and isinstance(n.ctx, ast.Load)] or [0])
+    facts["line_buffer_per_call"] = bool(binds) and len(fresh) == len(binds) and min(n.lineno for n in binds) < first_use
+
+    # 12. memoised functions are keyed by values that determine their result
+    facts["memoised_functions"] = memoised_functions(repo_src)
+    facts["memo_keys_coarser_than_function"] = [m for m in facts["memoised_functions"] if m["coarse_key_params"]]
+    facts["memo_keys_determine_result"] = not facts["memo_keys_coarser_than_function"]
+
     # 10. nothing but the command line, the declared environment variables and the package itself is looked at
     facts["ambient_probes"] = ambient_probes(repo_src)
     facts["no_undeclared_ambient_inputs"] = not facts["ambient_probes"]
@@ -857,6 +874,16 @@ def ambient_probes(repo_src):
                 if last == "_extra_includes_from_env":
                     if const not in DECLARED_ENV_VARS:
                         out.append({"where": where, "what": f"reads the environment variable {ast.unparse(a0) if a0 is not None else '?'} (not a documented input)"})
+            # state that outlives the process: compiled-template / result caches on disk
+            nm = node.id if isinstance(node, ast.Name) else node.attr if isinstance(node, ast.Attribute) else \
+                node.arg if isinstance(node, ast.keyword) else None
+            if nm is not None and (nm.endswith("BytecodeCache") or nm in ("bytecode_cache", "shelve", "dbm", "sqlite3", "diskcache", "joblib",
+                                                                         "user_cache_dir", "site_cache_dir")):
+                out.append({"where": where, "what": f"{nm}: a cache that outlives the process (outside the inputs and the output directory)"})
+            if isinstance(node, (ast.Import, ast.ImportFrom)):
+                for al in node.names:
+                    if al.name.split(".")[0] in ("shelve", "dbm", "sqlite3", "diskcache", "joblib", "platformdirs", "appdirs"):
+                        out.append({"where": where, "what": f"imports {al.name}: persistent state outside the inputs"})
             if isinstance(node, ast.Attribute) and (Scanner._dotted(node) or "") == "os.environ":
                 par = parents.get(id(node))
                 key = None
@@ -872,6 +899,38 @@ def ambient_probes(repo_src):
     return out
 
 
+
+def memoised_functions(repo_src):
+    """Every function of the package behind functools.lru_cache / functools.cache: its parameters with their annotations, and
+    whether a parameter is compared by something coarser than what the function may look at: a PyDSDL model object (composite
+    types compare and hash equal by name, version and bit length set — not by their attributes) or a container."""
+    out = []
+    for f in sorted((repo_src / "nunavut").rglob("*.py")):
+        rel = f.relative_to(repo_src)
+        if "jinja2" in rel.parts or "markupsafe" in rel.parts:
+            continue
+        tree = ast.parse(f.read_text(encoding="utf-8"))
+        owner = {}
+        for cl in ast.walk(tree):
+            if isinstance(cl, ast.ClassDef):
+                for sub in cl.body:
+                    owner[id(sub)] = cl.name
+        for node in ast.walk(tree):
+            if not isinstance(node, (ast.FunctionDef, ast.AsyncFunctionDef)):
+                continue
+            deco = [Scanner._dotted(d.func if isinstance(d, ast.Call) else d) or "" for d in node.decorator_list]
+            if not any(d.endswith("lru_cache") or d.endswith("functools.cache") or d == "cache" for d in deco):
+                continue
+            params = []
+            for a in node.args.posonlyargs + node.args.args + node.args.kwonlyargs:
+                params.append((a.arg, ast.unparse(a.annotation) if a.annotation is not None else ""))
+            coarse = [f"{n}: {t}" for n, t in params if "pydsdl" in t or any(x in t for x in ("List", "Dict", "Set[", "Iterable", "Sequence", "Mapping", "Any"))
+                      and n not in ("self", "cls")]
+            out.append({"function": f"{rel.as_posix()}:{(owner.get(id(node)) + '.') if id(node) in owner else ''}{node.name}",
+                        "params": [f"{n}: {t}" if t else n for n, t in params], "coarse_key_params": coarse})
+    return out
+
+
 # process-wide containers that are known and modelled / harmless (id = module:Class.attr or module:NAME)
 SHARED_CONTAINER_WHITELIST = {
 }
@@ -880,14 +939,21 @@ SHARED_CONTAINER_WHITELIST = {
 def shared_containers(repo_src):
     """Class attributes / module globals bound to a mutable container (dict/list/set literal or constructor) that some function
     of the package mutates (item / attribute assignment, mutating method, `global` rebinding)."""
-    ctor = {"dict", "list", "set", "defaultdict", "OrderedDict", "deque", "Counter", "WeakValueDictionary", "WeakKeyDictionary"}
+    # constructors / factories whose result has no state that a later call could observe (anything else bound at module or class
+    # level — dict(), io.StringIO(), itertools.count(), a user class … — is a candidate for process-wide state)
+    immutable = {"compile", "frozenset", "tuple", "str", "int", "float", "bool", "bytes", "complex", "getLogger", "TypeVar", "NewType",
+                 "namedtuple", "NamedTuple", "Path", "PurePath", "PurePosixPath", "PosixPath", "Enum", "IntEnum", "auto", "property",
+                 "staticmethod", "classmethod", "field", "object", "type", "cast", "partial", "lru_cache", "getattr", "import_module",
+                 "Version", "parse", "Literal", "Union", "Optional", "Callable", "ParamSpec", "Generic", "Struct", "dedent", "format",
+                 "join", "len", "range", "min", "max", "sorted", "abs", "round", "hash", "id", "repr", "ord", "chr", "version",
+                 "MappingProxyType", "__import__", "files"}
 
     def is_container(v):
         if isinstance(v, (ast.Dict, ast.List, ast.Set, ast.DictComp, ast.ListComp, ast.SetComp)):
             return True
         if isinstance(v, ast.Call):
             dn = (Scanner._dotted(v.func) or "").rsplit(".", 1)[-1]
-            return dn in ctor
+            return dn not in immutable
         return False
 
     out = []
@@ -945,8 +1011,12 @@ def shared_containers(repo_src):
                 for t in tg:
                     if isinstance(t, ast.Subscript) and own(t.value):
                         out.append({"id": own(t.value), "where": f"{mod}.{cl_or_fn.name}:{n.lineno}", "how": "item assignment"})
-                if isinstance(n, ast.Call) and isinstance(n.func, ast.Attribute) and n.func.attr in MUTATORS and own(n.func.value):
+                if isinstance(n, ast.Call) and isinstance(n.func, ast.Attribute) and n.func.attr in (MUTATORS | IO_MUTATORS) and own(n.func.value):
                     out.append({"id": own(n.func.value), "where": f"{mod}.{cl_or_fn.name}:{n.lineno}", "how": f".{n.func.attr}()"})
+                if isinstance(n, ast.Call) and isinstance(n.func, ast.Name) and n.func.id == "next" and n.args and own(n.args[0]):
+                    out.append({"id": own(n.args[0]), "where": f"{mod}.{cl_or_fn.name}:{n.lineno}", "how": "next()"})
+                if isinstance(n, ast.AugAssign) and own(n.target):
+                    out.append({"id": own(n.target), "where": f"{mod}.{cl_or_fn.name}:{n.lineno}", "how": "augmented assignment"})
                 if isinstance(n, ast.Global):
                     for nm in n.names:
                         out.append({"id": f"{mod}:{nm}", "where": f"{mod}.{cl_or_fn.name}:{n.lineno}", "how": "global statement"})
@@ -1047,6 +1117,56 @@ class LangConv:
         res = (set(added), set(removed), notes, where)
         self.callable_cache[ck] = res
         return res
+
+    # ---- sweep: EVERY callable / value registered in the environments, used by a built-in template or not -----------------
+    def sweep_registered(self):
+        """rows: dict(what, name, reads, removes, effective, where) for every filter, test and global of both environments of the
+        language; unclassified: names that neither the hand tables nor the body scan can classify."""
+        import datetime as _dt
+        rows, unclassified = {}, []
+
+        def put(what, name, added, removed, where):
+            added, removed = set(added), set(removed)
+            if PS_UNIQ in added and self.facts["resets_unique_names_per_file"]:
+                removed |= {PS_UNIQ}
+            removed |= (added & {PS_MEMO, PS_TPLCACHE})      # memoisation / template lookup cache: transparent (T5)
+            short = name.rsplit(".", 1)[-1]
+            if short in ("natural_sort_namespace", "natural_sort_type") and not self.facts["natural_sort_total"]:
+                added |= {HASHORDER}; removed -= {HASHORDER}
+            key = (what, name)
+            row = {"what": what, "name": name, "reads": sorted(added), "removes": sorted(removed & added), "effective": sorted(added - removed), "where": where}
+            if key in rows and (rows[key]["reads"], rows[key]["removes"]) != (row["reads"], row["removes"]):
+                # registered differently in the two environments: keep the union
+                row["reads"] = sorted(set(row["reads"]) | set(rows[key]["reads"]))
+                row["removes"] = sorted(set(row["removes"]) & set(rows[key]["removes"]))
+                row["effective"] = sorted(set(row["reads"]) - set(row["removes"]))
+            rows[key] = row
+
+        for kind, env in self.envs.items():
+            for what, table in (("filter", env.filters), ("test", env.tests)):
+                for name in sorted(table):
+                    try:
+                        added, removed, notes, where = self.classify_callable(kind, what + "s", name, table, what)
+                    except TieBroken as e:
+                        unclassified.append({"lang": self.lang, "env": kind, "what": what, "name": name, "why": str(e)[:200]})
+                        continue
+                    put(what, name, added, removed, where)
+            for name, value in sorted(env.globals.items()):
+                hand = GLOBALS.get(name, set() if name.startswith(GLOBAL_PREFIXES) and isinstance(value, str) else None)
+                scanned, where = None, type(value).__name__
+                mod = getattr(value, "__module__", "") or ""
+                if callable(value) and mod.startswith("nunavut") and "jinja2" not in mod and not isinstance(value, type):
+                    scanned, _notes, where = self.sc.scan_callable(value)
+                elif isinstance(value, (_dt.datetime, _dt.date, _dt.time)):
+                    scanned = {TIME}
+                elif isinstance(value, (str, int, float, bool, type(None), tuple, frozenset)):
+                    scanned = set()
+                if hand is None and scanned is None:
+                    unclassified.append({"lang": self.lang, "env": kind, "what": "global", "name": name,
+                                         "why": f"a {type(value).__module__}.{type(value).__name__} that is neither in the table of globals nor scannable nunavut code"})
+                    continue
+                put("global", name, (hand or set()) | (scanned or set()), set(), where)
+        return [rows[k] for k in sorted(rows)], unclassified
 
     # ---- expression classes ----------------------------------------------------------------------------------------
     def is_audit(self, node):
@@ -1863,6 +1983,9 @@ def emit_lang(conv: LangConv) -> str:
         rts.append(f"  ⟨{lean_str(r['name'])}, {kind}, {body}, {ft}, {lt}⟩")
     lines.append("def roots : List Root := [\n" + ",\n".join(rts) + "]")
     lines.append(f"def lang : Lang := ⟨{lean_str(conv.lang)}, program, roots⟩")
+    pick = sorted(l["id"] for l in conv.leaves if any("filter:pickle" in v for v in l["via"].values()))
+    lines.append("/-- The leaves that apply the `pickle` filter (the `_MODEL_` literal of a generated Python module). -/")
+    lines.append("def pickleLeaves : List Nat := [" + ", ".join(str(i) for i in pick) + "]")
     lines.append(f"end NunavutVerif.Gen.TplFlows{m}")
     return "\n".join(lines) + "\n"
 
@@ -1903,8 +2026,35 @@ def emit_top(facts) -> str:
             "/-- Outside templates and filters, no code of the package looks at a path relative to the working directory, the working or",
             "home directory, an undocumented environment variable, or a temporary-file name. -/",
             f"def noUndeclaredAmbientInputs : Bool := {b(facts['no_undeclared_ambient_inputs'])}",
+            "/-- `_generate_with_line_buffer` binds `line_buffer` only to a fresh `io.StringIO()` (at entry, after each complete line). -/",
+            f"def lineBufferPerCall : Bool := {b(facts['line_buffer_per_call'])}",
+            "/-- No function behind `functools.lru_cache` takes a PyDSDL model object (equal by name, version and bit length set only) or a",
+            "container as part of its key. -/",
+            f"def memoKeysDetermineResult : Bool := {b(facts['memo_keys_determine_result'])}",
+            "/-- The functions behind `functools.lru_cache` / `functools.cache`, with their parameters. -/",
+            "def memoisedFunctions : List (String × List String) := [" + ", ".join(
+                "(" + lean_str(m["function"]) + ", [" + ", ".join(lean_str(x) for x in m["params"]) + "])" for m in facts["memoised_functions"]) + "]",
             "end NunavutVerif.Gen.TplFlows", ""]
     return "\n".join(out)
+
+
+
+def emit_callables(per_lang) -> str:
+    """Gen/TplCallables.lean: every filter, test and global registered in the real environments of each language."""
+    src_l = lambda cs: "[" + ", ".join("." + c for c in cs) + "]"
+    out = ["-- GENERATED by translate/tplflows.py (sweep over the real CodeGenEnvironment of every language) — do not edit.",
+           "import NunavutVerif.Model.Tpl", "set_option maxRecDepth 100000", "namespace NunavutVerif.Gen.TplCallables", "open NunavutVerif.Tpl", ""]
+    un = []
+    for lang in LANGS:
+        rows, unclassified = per_lang[lang]
+        un += [f"{u['lang']}:{u['what']}:{u['name']}" for u in unclassified]
+        out.append(f"def {MOD[lang].lower()} : List Callable := [")
+        out.append(",\n".join(f"  ⟨{lean_str(r['what'])}, {lean_str(r['name'])}, {lean_str(r['name'].rsplit('.', 1)[-1])}, {src_l(r['reads'])}, {src_l(r['removes'])}⟩" for r in rows) + "]")
+    out.append("def all : List (String × List Callable) := [" + ", ".join(f"({lean_str(l)}, {MOD[l].lower()})" for l in LANGS) + "]")
+    out.append("/-- Registered names that neither the hand tables nor the body scan could classify. -/")
+    out.append("def unclassified : List String := [" + ", ".join(lean_str(x) for x in sorted(set(un))) + "]")
+    out.append("end NunavutVerif.Gen.TplCallables")
+    return "\n".join(out) + "\n"
 
 
 def write_if_changed(path: pathlib.Path, content: str) -> bool:
@@ -1934,9 +2084,11 @@ def main(argv=None) -> int:
         facts = source_facts(repo_src)
         info["facts"] = {k: (sorted(v, key=lambda x: json.dumps(x, sort_keys=True, default=str)) if isinstance(v, (set, list)) else v) for k, v in facts.items()}
         out = pathlib.Path(a.out)
+        swept = {}
         for lang in LANGS:
             conv = LangConv(lang, repo_src, scanner, facts, nodes)
             conv.run()
+            swept[lang] = conv.sweep_registered()
             text = emit_lang(conv)
             if not a.dry and write_if_changed(out / f"TplFlows{MOD[lang]}.lean", text):
                 info["written"].append(f"TplFlows{MOD[lang]}.lean")
@@ -1948,7 +2100,15 @@ def main(argv=None) -> int:
                 "callables": {f"{k[0]}:{k[1]}:{k[2]}": {"added": sorted(v[0]), "removed": sorted(v[1]), "notes": v[2][:8], "where": v[3]}
                               for k, v in sorted(conv.callable_cache.items())},
                 "digest": hashlib.sha256(text.encode()).hexdigest(),
+                "registered": {"n": len(swept[lang][0]), "non_pure": [r for r in swept[lang][0] if r["reads"]]},
             }
+        unclassified = [u for l in LANGS for u in swept[l][1]]
+        facts["unclassified_callables"] = unclassified
+        facts["registered_callables_classified"] = not unclassified
+        info["facts"]["unclassified_callables"] = unclassified
+        info["facts"]["registered_callables_classified"] = not unclassified
+        if not a.dry and write_if_changed(out / "TplCallables.lean", emit_callables(swept)):
+            info["written"].append("TplCallables.lean")
         if not a.dry and write_if_changed(out / "TplFlows.lean", emit_top(facts)):
             info["written"].append("TplFlows.lean")
     except TieBroken as e:
